@@ -13,6 +13,7 @@
  * the buffer of *this* call (backward read of create_overflow_frame, re-read from orig_spch). */
 #include "common.h"
 #include <math.h>
+#include <stdarg.h>
 #include <soundswallower/config_defs.h>
 #include <soundswallower/configuration.h>
 #include <soundswallower/err.h>
@@ -276,6 +277,288 @@ static void do_rt(void)
     printf("rt 65536 bad %d\n", bad);
 }
 
+/* ---------------------------------------------------------------------------------------------
+ * Byte-order family (C06Swap).  NEW ops only; nothing above is changed.
+ *
+ *   swcfg <id> <dither 0|1> <seed> [key=value ...]
+ *        builds TWO front ends with the same parameters: A with input_endian = host order,
+ *        B with input_endian = the other order; prints
+ *        "swcfg <id> size S shift H host=<little|big> swapA=<fe->swap> swapB=<fe->swap> dither=D seed=X"
+ *   swp <enc i|f> <endroom> <len>:<l,l,..|-> ...
+ *        same call protocol as `run` (fresh exact-size heap block per call, limits, dry-run final call,
+ *        fe_end with endroom) on A with the raw signal of the last `sig` and on B with the signal whose
+ *        every sample is byte-reversed; s3_rand_seed(seed) is called before EACH of the two runs (fe_init
+ *        seeds the one global generator only once), so both runs draw the same dither sequence.
+ *        Prints one line:
+ *        "swp <enc> ok=<0|1> fail=<first failing item|-> frames=T nend=E left=L hash=<FNV-1a of A's frames> ref=<1|0|-> calls=dry/limit/consumed/got/novfBefore/novfAfter/PQ,..."
+ *        P: d direct read, r read_overflow_frame, o overflow_append on empty carry, O overflow_append onto a
+ *        non-empty carry, z nothing consumed;  Q: c create_overflow_frame, p append_overflow_frame, - none.
+ *        Items checked: tags of fe->overflow_samps after every call (cell i holds float32(sample/32768) of source
+ *        sample pos-novf+i, bytes reversed iff fe->swap), fe->spch host-order after every call that produced a
+ *        frame and after fe_end, B's per-call log == A's, B's frames bitwise == A's, and with dither off
+ *        B's frames bitwise == a single-call reference computed on A. */
+#include <soundswallower/genrand.h>
+
+static config_t *swconfA, *swconfB;
+static fe_t *swA, *swB;
+static int sw_dither, sw_seed;
+
+#if defined(__BYTE_ORDER__) && __BYTE_ORDER__ == __ORDER_BIG_ENDIAN__
+#define SW_HOST "big"
+#define SW_OTHER "little"
+#else
+#define SW_HOST "little"
+#define SW_OTHER "big"
+#endif
+
+typedef struct { int dry, limit, got, nb, na; size_t cons; char p, q; } swcall_t;
+typedef struct {
+    mfcc_t *out;
+    int total, nend, ncalls, bad;
+    size_t left;
+    swcall_t calls[4096];
+    char fail[400];
+} swres_t;
+
+static void sw_fail(swres_t *R, const char *fmt, ...)
+{
+    va_list ap;
+    if (R->bad) return;
+    R->bad = 1;
+    va_start(ap, fmt);
+    vsnprintf(R->fail, sizeof(R->fail), fmt, ap);
+    va_end(ap);
+}
+
+static void sw_rev(void *p, int n)
+{
+    unsigned char *b = (unsigned char *)p, t;
+    int i;
+    for (i = 0; i < n / 2; i++) { t = b[i]; b[i] = b[n - 1 - i]; b[n - 1 - i] = t; }
+}
+
+/* cells [0, num_overflow_samps) hold float32(sample/32768) of source samples pos-novf.., input byte order */
+static void sw_tags(fe_t *f, const char *who, int enc, size_t pos, int ci, swres_t *R)
+{
+    int nv = f->num_overflow_samps, i;
+    if (nv < 0 || nv > f->frame_size || (size_t)nv > pos) {
+        sw_fail(R, "%s-novf-range:call=%d,novf=%d,pos=%zu", who, ci, nv, pos);
+        return;
+    }
+    for (i = 0; i < nv; i++) {
+        size_t src = pos - nv + i;
+        float32 v = enc == 'i' ? (float32)sig16[src] / FLOAT32_SCALE : sigf[src];
+        unsigned char e[4], g[4];
+        memcpy(e, &v, 4);
+        if (f->swap) sw_rev(e, 4);
+        memcpy(g, f->overflow_samps + i, 4);
+        if (memcmp(e, g, 4) != 0) {
+            sw_fail(R, "%s-ovf-tag:call=%d,cell=%d,novf=%d,src=%zu,want=%02x%02x%02x%02x,got=%02x%02x%02x%02x",
+                    who, ci, i, nv, src, e[0], e[1], e[2], e[3], g[0], g[1], g[2], g[3]);
+            return;
+        }
+    }
+}
+
+/* fe->spch[0,len) holds the window starting at `start` as host-order values (up to the dither increment) */
+static void sw_spch(fe_t *f, const char *who, int enc, size_t start, int len, int ci, swres_t *R)
+{
+    int i;
+    if (start + len > N) { sw_fail(R, "%s-spch-range:call=%d,start=%zu,len=%d", who, ci, start, len); return; }
+    for (i = 0; i < len; i++) {
+        float32 v = (float32)sig16[start + i], s = f->spch[i];
+        int ok;
+        if (!f->dither) ok = memcmp(&v, &s, 4) == 0;
+        else ok = s == v || s == v + 1.0f || (enc == 'i' && sig16[start + i] == 32767 && s == -32768.0f);
+        if (!ok) {
+            sw_fail(R, "%s-spch-host-order:call=%d,i=%d,src=%zu,want=%.9g,got=%.9g", who, ci, i, start + i,
+                    (double)v, (double)s);
+            return;
+        }
+    }
+}
+
+static void sw_run(fe_t *f, const char *who, int enc, const int16 *s16, const float32 *sf,
+                   int endroom, int n, char **w, swres_t *R)
+{
+    int room = canon_count(N) + 8 + endroom, total = 0, i;
+    size_t pos = 0;
+    mfcc_t **r;
+    int size = f->frame_size, shift = f->frame_shift;
+    R->out = (mfcc_t *)calloc((size_t)room * ncep + 1, sizeof(mfcc_t));
+    R->ncalls = 0; R->bad = 0; R->left = 0; R->fail[0] = 0; R->nend = 0; R->total = 0;
+    r = rows(R->out, room);
+    s3_rand_seed(sw_seed);
+    fe_start(f);
+    for (i = 3; i < n && !R->bad; i++) {
+        char *colon = strchr(w[i], ':');
+        size_t len = strtoull(w[i], NULL, 10), rem = len;
+        char *lp = colon ? colon + 1 : (char *)"-";
+        int final = 0;
+        if (pos + len > N) { sw_fail(R, "bad-partition"); break; }
+        for (;;) {
+            int limit, dry, got, nb = f->num_overflow_samps;
+            size_t before = rem, nn = rem;
+            void *blk;
+            swcall_t *C;
+            if (*lp == '-' || *lp == 0) {
+                if (rem == 0) break;
+                final = 1;
+            }
+            if (R->ncalls >= 4096) { sw_fail(R, "too-many-calls"); break; }
+            if (enc == 'i') {
+                blk = malloc(rem * sizeof(int16));
+                memcpy(blk, s16 + pos, rem * sizeof(int16));
+                dry = fe_process_int16(f, NULL, &nn, NULL, 0);
+            } else {
+                blk = malloc(rem * sizeof(float32));
+                memcpy(blk, sf + pos, rem * sizeof(float32));
+                dry = fe_process_float32(f, NULL, &nn, NULL, 0);
+            }
+            if (final) limit = dry;
+            else {
+                limit = (int)strtol(lp, &lp, 10);
+                if (*lp == ',') lp++;
+            }
+            if (total + (limit < dry ? limit : dry) > room) { sw_fail(R, "output-room-exhausted"); free(blk); break; }
+            if (enc == 'i') {
+                int16 *p = (int16 *)blk;
+                got = fe_process_int16(f, &p, &nn, r + total, limit);
+                if ((size_t)(p - (int16 *)blk) != before - nn) sw_fail(R, "%s-ptr-mismatch:call=%d", who, R->ncalls);
+            } else {
+                float32 *p = (float32 *)blk;
+                got = fe_process_float32(f, &p, &nn, r + total, limit);
+                if ((size_t)(p - (float32 *)blk) != before - nn) sw_fail(R, "%s-ptr-mismatch:call=%d", who, R->ncalls);
+            }
+            free(blk);
+            C = &R->calls[R->ncalls];
+            C->dry = dry; C->limit = limit; C->got = got; C->nb = nb; C->na = f->num_overflow_samps; C->cons = before - nn;
+            if (got <= 0) { C->p = C->cons > 0 ? (nb > 0 ? 'O' : 'o') : 'z'; C->q = '-'; }
+            else {
+                int k, m = nb > 0 ? nb - shift : 0;
+                C->p = nb > 0 ? 'r' : 'd';
+                for (k = 1; k < got; k++) if (m > 0) m -= shift;
+                C->q = m <= 0 ? 'c' : 'p';
+            }
+            if (got > limit) sw_fail(R, "%s-wrote-more-than-limit:call=%d", who, R->ncalls);
+            total += got > 0 ? got : 0;
+            pos += before - nn;
+            rem = nn;
+            sw_tags(f, who, enc, pos, R->ncalls, R);
+            if (got >= 1) sw_spch(f, who, enc, (size_t)(total - 1) * shift, size, R->ncalls, R);
+            R->ncalls++;
+            if (final || R->bad) break;
+        }
+        if (rem) { R->left += rem; sw_fail(R, "%s-samples-left:chunk=%d,left=%zu", who, i - 3, rem); }
+    }
+    if (!R->bad) {
+        int nv = f->num_overflow_samps;
+        R->nend = fe_end(f, r + total, endroom);
+        if (R->nend == 1) sw_spch(f, who, enc, (size_t)total * shift, nv, -1, R);
+        total += R->nend;
+    }
+    R->total = total;
+    free(r);
+}
+
+static void do_swcfg(int n, char **w)
+{
+    int i, k;
+    if (swA) { fe_free(swA); swA = NULL; }
+    if (swB) { fe_free(swB); swB = NULL; }
+    if (swconfA) { config_free(swconfA); swconfA = NULL; }
+    if (swconfB) { config_free(swconfB); swconfB = NULL; }
+    sw_dither = atoi(w[2]);
+    sw_seed = atoi(w[3]);
+    for (k = 0; k < 2; k++) {
+        config_t *cf = config_init(fe_args);
+        config_set_str(cf, "input_endian", k == 0 ? SW_HOST : SW_OTHER);
+        config_set_str(cf, "dither", sw_dither ? "yes" : "no");
+        config_set_str(cf, "seed", w[3]);
+        for (i = 4; i < n; i++) {
+            char *eq = strchr(w[i], '=');
+            if (!eq) continue;
+            *eq = 0;
+            if (!config_set_str(cf, w[i], eq + 1)) { printf("swcfg %s bad-key %s\n", w[1], w[i]); return; }
+            *eq = '=';
+        }
+        if (k == 0) { swconfA = cf; swA = fe_init(cf); } else { swconfB = cf; swB = fe_init(cf); }
+    }
+    if (!swA || !swB) { printf("swcfg %s init-failed\n", w[1]); return; }
+    printf("swcfg %s size %d shift %d host=%s swapA=%d swapB=%d dither=%d/%d seed=%d\n", w[1], swA->frame_size,
+           swA->frame_shift, SW_HOST, swA->swap, swB->swap, swA->dither, swB->dither, sw_seed);
+}
+
+static void do_swp(int n, char **w)
+{
+    int enc = w[1][0], endroom = atoi(w[2]);
+    static swres_t RA, RB;
+    fe_t *save_fe = fe;
+    int save_size = fsize, save_shift = fshift, save_ncep = ncep;
+    int16 *s16 = (int16 *)malloc(N * sizeof(int16) + 1);
+    float32 *sf = (float32 *)malloc(N * sizeof(float32) + 1);
+    size_t j;
+    int i, refeq = -1;
+    char item[500];
+    item[0] = 0;
+    memcpy(s16, sig16, N * sizeof(int16));
+    memcpy(sf, sigf, N * sizeof(float32));
+    for (j = 0; j < N; j++) { sw_rev(s16 + j, 2); sw_rev(sf + j, 4); }
+    fsize = swA->frame_size; fshift = swA->frame_shift; ncep = fe_get_output_size(swA);
+    sw_run(swA, "A", enc, sig16, sigf, endroom, n, w, &RA);
+    sw_run(swB, "B", enc, s16, sf, endroom, n, w, &RB);
+    if (swA->swap != 0 || swB->swap == 0) snprintf(item, sizeof(item), "swap-flags:A=%d,B=%d", swA->swap, swB->swap);
+    else if (RA.bad) snprintf(item, sizeof(item), "%s", RA.fail);
+    else if (RB.bad) snprintf(item, sizeof(item), "%s", RB.fail);
+    else if (RA.ncalls != RB.ncalls) snprintf(item, sizeof(item), "call-count:A=%d,B=%d", RA.ncalls, RB.ncalls);
+    else {
+        for (i = 0; i < RA.ncalls && !item[0]; i++) {
+            swcall_t *a = &RA.calls[i], *b = &RB.calls[i];
+            if (a->dry != b->dry || a->limit != b->limit || a->got != b->got || a->nb != b->nb || a->na != b->na
+                || a->cons != b->cons)
+                snprintf(item, sizeof(item), "call-log:call=%d,A=%d/%d/%zu/%d/%d/%d,B=%d/%d/%zu/%d/%d/%d", i, a->dry,
+                         a->limit, a->cons, a->got, a->nb, a->na, b->dry, b->limit, b->cons, b->got, b->nb, b->na);
+        }
+        if (!item[0] && (RA.total != RB.total || RA.nend != RB.nend))
+            snprintf(item, sizeof(item), "frame-count:A=%d(end %d),B=%d(end %d)", RA.total, RA.nend, RB.total, RB.nend);
+        if (!item[0]) {
+            int d = first_diff(RA.out, RB.out, RA.total);
+            if (d != -1) snprintf(item, sizeof(item), "frames-B-vs-A:first-differing-frame=%d,of=%d", d, RA.total);
+        }
+        if (!item[0] && !sw_dither) {
+            /* single-call reference on A (host order, no dither) */
+            int room = canon_count(N) + 4, nr;
+            mfcc_t *rf = (mfcc_t *)calloc((size_t)room * ncep + 1, sizeof(mfcc_t));
+            fe = swA;
+            nr = single_call('i', rf, room);
+            fe = save_fe;
+            refeq = (nr == RB.total && first_diff(rf, RB.out, nr) == -1) ? 1 : 0;
+            if (!refeq) snprintf(item, sizeof(item), "frames-B-vs-single-call-reference:ref=%d,B=%d,firstdiff=%d", nr,
+                                 RB.total, nr == RB.total ? first_diff(rf, RB.out, nr) : -2);
+            free(rf);
+        }
+    }
+    {
+        /* FNV-1a of A's frames: lets the caller see whether two schedules gave the same cepstra (dither probe) */
+        uint64_t hsh = 1469598103934665603ULL;
+        const unsigned char *pb = (const unsigned char *)RA.out;
+        size_t nb = (size_t)(RA.total > 0 ? RA.total : 0) * ncep * sizeof(mfcc_t), q;
+        for (q = 0; q < nb; q++) { hsh ^= pb[q]; hsh *= 1099511628211ULL; }
+        printf("swp %c ok=%d fail=%s frames=%d nend=%d left=%zu hash=%016llx ref=", enc, item[0] ? 0 : 1,
+               item[0] ? item : "-", RA.total, RA.nend, RA.left, (unsigned long long)hsh);
+    }
+    if (refeq < 0) printf("-"); else printf("%d", refeq);
+    printf(" calls=");
+    for (i = 0; i < RA.ncalls; i++) {
+        swcall_t *a = &RA.calls[i];
+        printf("%s%d/%d/%zu/%d/%d/%d/%c%c", i ? "," : "", a->dry, a->limit, a->cons, a->got, a->nb, a->na, a->p, a->q);
+    }
+    printf("\n");
+    free(RA.out); free(RB.out); RA.out = RB.out = NULL;
+    free(s16); free(sf);
+    fe = save_fe; fsize = save_size; fshift = save_shift; ncep = save_ncep;
+}
+
 int main(void)
 {
     char *line = NULL;
@@ -289,11 +572,17 @@ int main(void)
         else if (!strcmp(w[0], "sig") && n == 4) do_sig(w);
         else if (!strcmp(w[0], "run") && n >= 3 && fe && sig16) do_run(n, w);
         else if (!strcmp(w[0], "rt")) do_rt();
+        else if (!strcmp(w[0], "swcfg") && n >= 4) do_swcfg(n, w);
+        else if (!strcmp(w[0], "swp") && n >= 3 && swA && swB && sig16) do_swp(n, w);
         else printf("bad-op\n");
         fflush(stdout);
     }
     if (fe) fe_free(fe);
     if (config) config_free(config);
+    if (swA) fe_free(swA);
+    if (swB) fe_free(swB);
+    if (swconfA) config_free(swconfA);
+    if (swconfB) config_free(swconfB);
     free(sig16); free(sigf); free(ref); free(line); free(w);
     return 0;
 }
